@@ -75,6 +75,7 @@ type Out struct {
 	Conc  string   `json:"conc"`
 	Multi string   `json:"multi,omitempty"`
 	Muts  []string `json:"muts"`
+	Mutk  []string `json:"mutk"` // per mutated source, where it was rejected: ok|scan|illegal|parse|crash
 	Err   string   `json:"err,omitempty"`
 }
 
@@ -497,7 +498,7 @@ func trunc(s string, n int) string {
 }
 
 func runCase(c Case) Out {
-	o := Out{ID: c.ID, Muts: []string{}}
+	o := Out{ID: c.ID, Muts: []string{}, Mutk: []string{}}
 	if len(c.Src) == 0 {
 		o.Err = "empty source (parser.New would call log.Fatalln)"
 		return o
@@ -527,17 +528,29 @@ func runCase(c Case) Out {
 	for _, m := range c.Muts {
 		if len(m) == 0 {
 			o.Muts = append(o.Muts, "skipped-empty")
+			o.Mutk = append(o.Mutk, "ok")
 			continue
 		}
 		_, _, r := formatSrc(m)
+		k := "crash"
 		if r == "ok" || r == "err" {
 			// also the scanner and the parser on their own
-			_, _, se := scan(m)
-			if strings.HasPrefix(se, "scanner panic") || strings.HasPrefix(se, "scanner timeout") {
+			mt, _, se := scan(m)
+			switch {
+			case strings.HasPrefix(se, "scanner panic") || strings.HasPrefix(se, "scanner timeout"):
 				r = se
+			case r == "ok":
+				k = "ok"
+			case se != "":
+				k = "scan" // the scanner returned an error
+			case len(mt) > 0 && mt[len(mt)-1][0] == "ILLEGAL":
+				k = "illegal" // the scanner handed an ILLEGAL token to the parser
+			default:
+				k = "parse" // every token is legal: rejected by the grammar
 			}
 		}
 		o.Muts = append(o.Muts, r)
+		o.Mutk = append(o.Mutk, k)
 	}
 	return o
 }
@@ -584,6 +597,113 @@ func concurrent(cases []Case, outs []Out) {
 	}
 }
 
+// ---- tables mode: the lexical tables of token.go and the scanner's behaviour on enumerated tiny
+// inputs, read off the COMPILED packages through their public API (so that a refactoring of the
+// source text cannot mislead a text extractor): tools/c20consts.py turns them into
+// coq/gen/C20Consts.v, theories/C20/GenProofs.v proves that the models agree with them.
+
+type Probe struct {
+	ID    int   `json:"id"`
+	Bytes []int `json:"bytes"`
+}
+
+type ProbeOut struct {
+	ID   int     `json:"id"`
+	Toks [][]any `json:"toks"` // [kind, text bytes, nl]
+	Cmts [][]any `json:"cmts"` // [index of the preceding token + 1, text bytes]
+	OK   bool    `json:"ok"`   // no scanner error
+}
+
+type Tables struct {
+	Types  [][]any           `json:"types"`  // [number, Type.String()] for every number with a name
+	Consts map[string]string `json:"consts"` // the keyword texts the parser compares identifiers with
+	Http   []string          `json:"http"`   // token.HttpMethods
+	Words  [][]any           `json:"words"`  // [word, LookupKeyword ok, its Type.String(), IsHttpMethod, IsBaseType]
+}
+
+func byteInts(s string) []int {
+	res := make([]int, 0, len(s))
+	for i := 0; i < len(s); i++ {
+		res = append(res, int(s[i]))
+	}
+	return res
+}
+
+// typeName: Type.String() indexes its name table with every number below token_end, and the
+// table ends before that (the unnamed end markers): such a number has no name.
+func typeName(i int) (n string) {
+	defer func() {
+		if recover() != nil {
+			n = ""
+		}
+	}()
+	return token.Type(i).String()
+}
+
+func tables(words []string) Tables {
+	t := Tables{Consts: map[string]string{
+		"Syntax": token.Syntax, "Info": token.Info, "Service": token.Service, "Returns": token.Returns, "Any": token.Any,
+		"TypeKeyword": token.TypeKeyword, "MapKeyword": token.MapKeyword, "ImportKeyword": token.ImportKeyword}}
+	seen := map[string]bool{}
+	for i := 0; i < 200; i++ {
+		if n := typeName(i); n != "" {
+			t.Types = append(t.Types, []any{i, n})
+			if !seen[n] {
+				seen[n] = true
+				words = append(words, n)
+			}
+		}
+	}
+	for _, m := range token.HttpMethods {
+		t.Http = append(t.Http, fmt.Sprint(m))
+		words = append(words, fmt.Sprint(m))
+	}
+	done := map[string]bool{}
+	for _, w := range words {
+		if done[w] {
+			continue
+		}
+		done[w] = true
+		tp, ok := token.LookupKeyword(w)
+		tk := token.Token{Type: token.IDENT, Text: w}
+		t.Words = append(t.Words, []any{w, ok, tp.String(), tk.IsHttpMethod(), tk.IsBaseType()})
+	}
+	return t
+}
+
+func runTables(data []byte, f *os.File) {
+	var in struct {
+		Words  []string `json:"words"`
+		Probes []Probe  `json:"probes"`
+	}
+	var arr []json.RawMessage
+	if err := json.Unmarshal(data, &arr); err != nil || len(arr) != 1 || json.Unmarshal(arr[0], &in) != nil {
+		fmt.Fprintln(os.Stderr, "executor: tables mode wants [{words, probes}]")
+		os.Exit(3)
+	}
+	w := bufio.NewWriterSize(f, 1<<20)
+	enc := json.NewEncoder(w)
+	enc.SetEscapeHTML(false)
+	_ = enc.Encode(tables(in.Words))
+	for _, p := range in.Probes {
+		bs := make([]byte, len(p.Bytes))
+		for i, b := range p.Bytes {
+			bs[i] = byte(b)
+		}
+		toks, cmts, serr := scan(string(bs))
+		o := ProbeOut{ID: p.ID, Toks: [][]any{}, Cmts: [][]any{}, OK: serr == ""}
+		for _, t := range toks {
+			o.Toks = append(o.Toks, []any{t[0], byteInts(t[1].(string)), t[2]})
+		}
+		for _, c := range cmts {
+			o.Cmts = append(o.Cmts, []any{c[0].(int) + 1, byteInts(c[2].(string))})
+		}
+		_ = enc.Encode(o)
+	}
+	w.Flush()
+	f.Close()
+}
+
 func main() {
 	data, err := os.ReadFile(os.Getenv("VERIF_IN"))
 	if err != nil {
@@ -591,13 +711,17 @@ func main() {
 		os.Exit(3)
 	}
 	var cases []Case
-	if err := json.Unmarshal(data, &cases); err != nil {
-		fmt.Fprintln(os.Stderr, "executor: parse VERIF_IN:", err)
-		os.Exit(3)
-	}
 	f, err := os.Create(os.Getenv("VERIF_OUT"))
 	if err != nil {
 		fmt.Fprintln(os.Stderr, "executor: create VERIF_OUT:", err)
+		os.Exit(3)
+	}
+	if len(os.Args) > 1 && os.Args[1] == "-tables" {
+		runTables(data, f)
+		return
+	}
+	if err := json.Unmarshal(data, &cases); err != nil {
+		fmt.Fprintln(os.Stderr, "executor: parse VERIF_IN:", err)
 		os.Exit(3)
 	}
 	w := bufio.NewWriterSize(f, 1<<20)
